@@ -356,6 +356,25 @@ fn lex_iter_case(cx: &mut Ctx, strings: &[String], probes: &[String]) {
             let mut rest2: Vec<String> = vec![];
             while let Some(c) = it.current() { rest2.push(c.to_string()); if !it.next().unwrap() { break; } }
             if rest2 != strings[ub..] { bad.push(format!("seek_upper_bound({:?}) enumerates {:?}, want {:?}", p, rest2, &strings[ub..])); }
+            // the strings with a given prefix form one block of the sorted list: counting them must find all
+            match zipora::string::utils::lex_utils::count_with_prefix(SortedVecLexIterator::new(strings), p) {
+                Ok(c) => { let want = strings.iter().filter(|s| s.starts_with(p.as_str())).count(); if c != want { bad.push(format!("count_with_prefix({:?}) = {}, want {}", p, c, want)); } }
+                Err(e) => bad.push(format!("count_with_prefix: {}", e)),
+            }
+        }
+        match zipora::string::utils::lex_utils::collect_all(SortedVecLexIterator::new(strings)) {
+            Ok(v) => if v != strings { bad.push(format!("collect_all {:?}", v)); },
+            Err(e) => bad.push(format!("collect_all: {}", e)),
+        }
+        let want_lcp: String = if strings.is_empty() { String::new() } else {
+            let first: Vec<char> = strings[0].chars().collect();
+            let mut k = first.len();
+            for s in strings { k = k.min(first.iter().zip(s.chars()).take_while(|(a, b)| **a == *b).count()); }
+            first[..k].iter().collect()
+        };
+        match zipora::string::utils::lex_utils::find_common_prefix(SortedVecLexIterator::new(strings)) {
+            Ok(v) => if v != want_lcp { bad.push(format!("find_common_prefix {:?}, want {:?}", v, want_lcp)); },
+            Err(e) => bad.push(format!("find_common_prefix: {}", e)),
         }
         bad
     });
@@ -487,7 +506,7 @@ fn run_one(cx: &mut Ctx, c: &Value) {
 
 pub fn run(args: &Args) {
     let mut cx = Ctx {
-        sum: Summary::new("C20", "numeric comparators: all pairs of strings over {+,-,0,1,9,.,a} up to length 3 (quick) / 4 (thorough) against an exact integer-arithmetic value oracle, antisymmetry on all pairs, transitivity on all triples up to length 2, plus generated long numerals; FastStr/join/words/lines/lex-iterator/case: generated byte strings and lists (empties, duplicates, bytes >= 0x80) against std; non-trivial = at least one operand of length >= 2 (or list of >= 2)"),
+        sum: Summary::new("C20", "numeric comparators: all pairs of strings over {+,-,0,1,9,.,a} up to length 3 (quick) / 4 (thorough) against an exact integer-arithmetic value oracle, antisymmetry on all pairs, transitivity on all triples up to length 2, plus generated long numerals (equal values written differently); FastStr: generated pairs plus the deep oracle on every length 0..=130 (24 alignments, every constructor, one byte changed at every position, every cut point, find of every substring start); join/split/words/lines/case/lex-iterator histories: generated lists and texts (empties, duplicates, bytes >= 0x80, all line-ending mixes) against std, a sample evaluated in Coq against the models; StreamingLexIterator/SortableStrVec (up to 1300 strings, 2^20-byte strings)/ZoSortedStrVec/unicode/LineProcessor configurations against std; corpus of past witnesses first; non-trivial = at least one operand of length >= 2 (or list of >= 2)"),
         shards: CoqShards::new(HEADER, 500),
         budget: if args.thorough { 12000 } else { 1800 },
         emit: true,
@@ -692,6 +711,7 @@ pub fn run(args: &Args) {
     cx.sum.cell_status("SortableStrVec", "S-only");
     cx.sum.cell_status("ZoSortedStrVec", "S-only");
     cx.sum.cell_status("unicode", "S-only");
+    cx.sum.cell_status("LineProcessor_configs", "S-only");
     cx.sum.dist_max("coq_cases", cx.shards.len() as u64);
     let sh = cx.shards.write(&args.out);
     cx.sum.write(&args.out, sh);
